@@ -28,7 +28,7 @@ def cfgOf? (j : Json) : Option Cfg := do
   let backoff ← jOpt? jInt? (← jField? j "backoff")
   let timeout ← jOpt? jInt? (← jField? j "timeout")
   let polling ← jInt? (← jField? j "polling")
-  some { backoff, timeout, polling }
+  some { backoff, timeout, polling, stopsGone := treeStopsGone, marksExiting := treeMarksExiting, escorts := treeEscorts }
 
 def instOf? (j : Json) : Option Inst := do
   let rs ← (← jStrList? (← jField? j "reasons")).mapM reasonOf?
@@ -155,7 +155,8 @@ def handle : DrvHandler := fun op args =>
       some (ok (Json.mkObj [("round", .bool (isRound p t)), ("byDue", .bool (decide (t ≤ firstDue p since))),
                             ("due", num (firstDue p since))]))
   | "C09.variant", [] => some (ok (Json.mkObj [("treeGuarded", .bool treeGuarded), ("treeYielding", .bool treeYielding),
-                                                   ("treeStopsGone", .bool treeStopsGone), ("treeMarksExiting", .bool treeMarksExiting)]))
+                                                   ("treeStopsGone", .bool treeStopsGone), ("treeMarksExiting", .bool treeMarksExiting),
+                                                   ("treeEscorts", .bool treeEscorts)]))
   | _, _ => none
 
 end Kopf.Drv.C09
